@@ -172,6 +172,16 @@ pub struct TA {
     pub start_gate: Option<usize>,
 }
 
+/// An actor value whose start-up failed is slow to drop (a user type may be): whatever the cluster still does
+/// with the failed start after reporting it (releasing the reserved name, for one) must not wait for that.
+impl Drop for TA {
+    fn drop(&mut self) {
+        if self.fail == StartFail::PreStart {
+            std::thread::sleep(std::time::Duration::from_millis(15));
+        }
+    }
+}
+
 impl Actor for TA {
     type Arguments = ();
     type Error = String;
